@@ -81,6 +81,17 @@ def gen_cases(rng, tier):
             ox = rng.randint(-sw + 1, w - 1)
             oy = rng.randint(-sh + 1, h - 1)
         cases.append(("nearest_map", [kind, sw, sh, ox, oy, rng.randrange(3), w, h]))
+    # tiled destinations (wider / taller than 8191, up to three tiles): the shader is moved into each tile and back
+    for i in range(3 if q else 24):
+        wide = i % 3 != 2
+        w, h = (rng.choice([16400, 8200, 16390]), 2) if wide else (2, rng.choice([16400, 8200]))
+        sw, sh = rng.choice([(8, 2), (5, 3), (13, 2)])
+        kind = i % 2
+        if wide:
+            ox, oy = rng.choice([w - 12, 16383 - rng.randint(0, 4), 8190, w - 3]), rng.choice([0, -1])
+        else:
+            ox, oy = rng.choice([0, -1]), rng.choice([h - 12, 16383 - rng.randint(0, 4), 8190])
+        cases.append(("nearest_map", [kind, sw, sh, ox, oy, rng.randrange(3), w, h]))
     # kind 2: translation by (ox / 2, oy / 2); odd values put every pixel centre exactly on a source pixel boundary,
     # where the binary32 chain must stay exact (sizes that are not powers of two have an inexact reciprocal)
     for i in range(300 if q else 4000):
